@@ -74,6 +74,9 @@ type Eval struct {
 	// Override gives meaning to calls before anything else is tried (also to
 	// functions of the module that would otherwise be entered)
 	Override func(name string, call *ssa.CallCommon, args []Val) (Val, bool)
+	// OnTypeAssert decides a type assertion (the value, or the tuple of value
+	// and ok for the comma-ok form) in the scenario the caller evaluates.
+	OnTypeAssert func(v *ssa.TypeAssert, x Val) (Val, bool)
 	// NoMerge disables the merging of pure branch regions in path mode
 	NoMerge bool
 	// Assume restricts the evaluation to the inputs on which it holds (0: no
@@ -960,6 +963,17 @@ func (e *Eval) call(fn *ssa.Function, args []Val) []Val {
 				if reach[b] != 0 {
 					unsupported("reachable panic in %s", fn.Name())
 				}
+			case *ssa.TypeAssert:
+				// the dynamic type of an interface value is the caller's
+				// scenario: only a rule can say what an assertion yields
+				if e.OnTypeAssert == nil {
+					unsupported("type assertion %s in %s", v, fn.Name())
+				}
+				r, ok := e.OnTypeAssert(v, get(v.X))
+				if !ok {
+					unsupported("type assertion %s in %s", v, fn.Name())
+				}
+				vals[v] = r
 			default:
 				unsupported("unsupported instruction %T %s in %s", ins, ins, fn.Name())
 			}
